@@ -117,6 +117,7 @@ class FakeSocket:
     def __init__(self, world):
         self.w = world
         self.closed = False
+        self.reset = False      # the connection was reset by the peer (a read / write failed with ECONNRESET)
 
     def fileno(self):
         return 0
@@ -144,6 +145,8 @@ class FakeSocket:
                     w.canon_write(data)
                 except Exception:  # noqa
                     pass
+            if w.sc.werrno == 104:
+                self.reset = True
             raise socket.error(w.sc.werrno, 'simulated write failure' + HOSTILE)
         w.raw.append(data)
         w.log(w.canon_write(data))
@@ -158,6 +161,7 @@ class FakeSocket:
         if kind == 'eof':
             return 0
         if kind == 'sockerr':
+            self.reset = True
             raise socket.error(104, 'simulated reset' + HOSTILE)
         if kind == 'othererr':
             raise ValueError('simulated non-socket failure' + HOSTILE)
@@ -167,7 +171,10 @@ class FakeSocket:
         return len(data)
 
     def shutdown(self, how):
-        pass
+        # Linux: shutdown() of a TCP socket whose connection has been reset fails with ENOTCONN; the descriptor is still open
+        # and still has to be closed (finding D12)
+        if self.reset and not self.closed:
+            raise socket.error(107, 'simulated: transport endpoint is not connected' + HOSTILE)
 
     def close(self):
         if not self.closed:
